@@ -52,6 +52,27 @@ func (r *rng) nastyValue(f *proto.Field) proto.Value {
 		}
 	case 6, 7, 8, 9: // scaled (float64) input on any field
 		x := float64(r.intn(100000))/float64(1+r.intn(1000)) - float64(r.intn(600))
+		if (f.Scale != 1 || f.Offset != 0) && r.chance(1, 3) { // the scaled form of the base type's invalid sentinel (or its neighbour): restored first, judged after
+			var inv float64
+			switch f.BaseType {
+			case basetype.Uint8, basetype.Enum, basetype.Byte:
+				inv = 0xFF
+			case basetype.Sint8:
+				inv = 0x7F
+			case basetype.Uint16:
+				inv = 0xFFFF
+			case basetype.Sint16:
+				inv = 0x7FFF
+			case basetype.Uint32:
+				inv = 0xFFFFFFFF
+			case basetype.Sint32:
+				inv = 0x7FFFFFFF
+			}
+			if inv != 0 {
+				x = (inv-float64(r.pick(0, 0, 0, 1)))/f.Scale - f.Offset
+				stat("scaled_input_at_invalid_sentinel", 1)
+			}
+		}
 		if f.Array || r.chance(1, 8) {
 			return proto.SliceFloat64([]float64{x, float64(r.intn(5000)) / 7, 0})
 		}
